@@ -92,6 +92,44 @@ type verifC12CSR struct {
 type verifC12Rotation struct {
 	To    int  `json:"to"`
 	Force bool `json:"force,omitempty"` // ForceWithoutCrossSigning
+	// Fault "apply-fails": the raft apply of the update's CA request is made to fail at the delegate (leadership lost
+	// while the request is in flight, enqueue timeout): the update must report the error and leave the root set as it was.
+	Fault string `json:"fault,omitempty"`
+}
+
+// verifC12Delegate sits between the CAManager and the server (CAManager.delegate is the seam upstream's own tests
+// use). It lets the harness own the one point of a configuration update that matters to "the root set is replaced
+// atomically": the moment the CA request is handed to raft. `observe` runs right before every ApplyCARequest (a reader
+// looking at the store at that moment); `fail`, when set, is returned instead of applying the next root-set request.
+type verifC12Delegate struct {
+	caServerDelegate
+	mu      sync.Mutex
+	observe func(req *structs.CARequest)
+	fail    error
+}
+
+func (d *verifC12Delegate) ApplyCARequest(req *structs.CARequest) (interface{}, error) {
+	d.mu.Lock()
+	observe, fail := d.observe, d.fail
+	if req.Op == structs.CAOpSetRootsAndConfig || req.Op == structs.CAOpSetRoots {
+		d.fail = nil
+	} else {
+		fail = nil
+	}
+	d.mu.Unlock()
+	if observe != nil {
+		observe(req)
+	}
+	if fail != nil {
+		return nil, fail
+	}
+	return d.caServerDelegate.ApplyCARequest(req)
+}
+
+func (d *verifC12Delegate) arm(observe func(req *structs.CARequest), fail error) {
+	d.mu.Lock()
+	d.observe, d.fail = observe, fail
+	d.mu.Unlock()
 }
 
 type verifC12Env struct {
@@ -100,6 +138,7 @@ type verifC12Env struct {
 	td   string // canonical (lower-case) trust domain
 	keys []*ecdsa.PrivateKey
 	cas  []*structs.CARoot // externally supplied roots (key + certificate) the rotation cases switch between
+	dlg  *verifC12Delegate
 	mu   sync.Mutex
 	seen map[string]string // serial -> what it was issued for
 	// root ID -> true for every root that has been observed active in this process
@@ -159,6 +198,8 @@ func verifC12NewEnv(t *testing.T) *verifC12Env {
 		time.Sleep(50 * time.Millisecond)
 	}
 	env := &verifC12Env{srv: srv, dc: "dc1", td: connect.SpiffeIDSigningForCluster(conf.ClusterID).Host(), seen: map[string]string{}}
+	env.dlg = &verifC12Delegate{caServerDelegate: srv.caManager.delegate}
+	srv.caManager.delegate = env.dlg
 	for i := 0; i < 4; i++ {
 		k, err := ecdsa.GenerateKey(elliptic.P256(), rand.Reader)
 		if err != nil {
@@ -624,6 +665,19 @@ func verifC12RootsNow(f verifkit.F, e *verifC12Env) (all structs.CARoots, active
 	return all, active
 }
 
+// verifC12RootsString renders a root set completely (the stored objects by value, in store order).
+func verifC12RootsString(rs structs.CARoots) string {
+	var out []string
+	for _, r := range rs {
+		if r == nil {
+			out = append(out, "<nil>")
+			continue
+		}
+		out = append(out, fmt.Sprintf("%+v", *r))
+	}
+	return "[" + strings.Join(out, " | ") + "]"
+}
+
 func verifC12SameCert(pemA, pemB string) bool {
 	a, errA := connect.ParseCert(pemA)
 	b, errB := connect.ParseCert(pemB)
@@ -715,9 +769,47 @@ func verifC12RotateStep(f verifkit.F, c *verifkit.Case, e *verifC12Env, s verifC
 			c.Label("rotate:force-without-cross-signing")
 		}
 		args := e.rotationConfig(r.To, r.Force)
+		// T5 (atomic replacement, with the schedule / fault point owned by the harness): whoever looks at the store at
+		// the moment a CA request of this update is handed to raft still sees the root set exactly as it was before the
+		// update (nothing is changed outside the replicated command); and when that apply fails, the update reports
+		// an error and the root set is, afterwards, still exactly what it was.
+		snapBefore := verifC12RootsString(rootsBefore)
+		var seenAtApply []string
+		var injected error
+		if r.Fault == "apply-fails" {
+			injected = fmt.Errorf("verif: leadership lost while committing log")
+			c.Label("rotate:fault:apply-fails")
+		}
+		e.dlg.arm(func(req *structs.CARequest) {
+			if req.Op != structs.CAOpSetRootsAndConfig && req.Op != structs.CAOpSetRoots {
+				return
+			}
+			_, now, _ := e.srv.fsm.State().CARoots(nil)
+			seenAtApply = append(seenAtApply, verifC12RootsString(now))
+		}, injected)
 		uerr := e.srv.caManager.UpdateConfiguration(args)
+		e.dlg.arm(nil, nil)
 		verifkit.For("C12").AddExtraInt("ca_config_updates", 1)
-		what := fmt.Sprintf("configuration update %d of %v (pair %d, %s, force=%v) -> err=%v", i+1, s.Rotate, r.To, kind, r.Force, uerr)
+		what := fmt.Sprintf("configuration update %d of %v (pair %d, %s, force=%v, fault=%q) -> err=%v", i+1, s.Rotate, r.To, kind, r.Force, r.Fault, uerr)
+		for _, seen := range seenAtApply {
+			c.Label("rotate:reader-at-apply-point")
+			if seen != snapBefore {
+				c.Violation(f, "C12/root-set-changed-before-the-update-was-applied", "%s: a reader at the moment the root-set request was handed to raft saw %s; the set before the update was %s", what, seen, snapBefore)
+				return
+			}
+		}
+		if injected != nil && len(seenAtApply) > 0 {
+			c.NonTrivial()
+			if uerr == nil {
+				c.Violation(f, "C12/config-update-reports-success-although-apply-failed", "%s", what)
+				return
+			}
+			if _, now, _ := e.srv.fsm.State().CARoots(nil); verifC12RootsString(now) != snapBefore {
+				c.Violation(f, "C12/failed-config-update-changes-root-set", "%s: root set before %s; after the failed update %s", what, snapBefore, verifC12RootsString(now))
+				return
+			}
+			c.Label("rotate:fault:root-set-unchanged")
+		}
 
 		rootsAfter, activeAfter := verifC12RootsNow(f, e)
 		desc := func(rs structs.CARoots) string {
@@ -788,6 +880,9 @@ func verifC12GenRotation(t *rapid.T) verifC12CSR {
 	n := rapid.IntRange(2, 4).Draw(t, "nrotations")
 	for i := 0; i < n; i++ {
 		r := verifC12Rotation{To: rapid.IntRange(0, 2).Draw(t, "to"), Force: verifC12Weighted(t, "force", 70, 30) == 1}
+		if verifC12Weighted(t, "fault", 70, 30) == 1 {
+			r.Fault = "apply-fails"
+		}
 		// aim: X, Y, X — back to a root that is still listed as rotated out
 		if i >= 2 && verifC12Weighted(t, "back", 35, 65) == 1 {
 			r.To = s.Rotate[i-2].To
